@@ -26,29 +26,36 @@ def main():
     vlib.build()
     rep = vlib.Report("C01")
     cov = {"states": 0, "transitions": 0, "traces_validated_against_impl": 0, "samples": [], "tlc_runs": []}
-    ds = gramcheck.derivations(QUICK if tier == "quick" else THOROUGH, cov)
-    fails, stats = gramcheck.replay(ds, "c01", vlib.SEED, {"layouts": 1 if tier == "quick" else 3})
-    canon_failed = set(id(d) for d, vn, _, _, _ in fails if vn == "canonical")
-    for d, vn, text, sig, det in fails:
-        if vn != "canonical" and id(d) in canon_failed:
-            continue          # already reported for the canonical spelling
-        if sig == "parse-fail":
-            m = re.search(r"that matched token (.*)$", (det.get("diag") or {}).get("primary", {}).get("msg", ""))
-            sig = "parse-fail:found=%s" % (m.group(1) if m else "?")
-        if vn != "canonical":
-            sig = "layout-only:" + sig
-        rep.add(sig, labels=set(d["labs"]) | {"start:" + d["start"]},
-                detail=dict(det, text=text, variant=vn, labels=d["labs"]),
-                replay={"text": text, "cmd": "echo '{\"id\":0,\"text\":<text>}' | build/target/debug/vph parse"})
     labels = set()
-    for d in ds:
-        labels |= set(d["labs"])
-    cov["derivations"] = len(ds)
+    nds = 0
+    stats = {"cases": 0, "ok": 0}
+    d0 = None
+    for ds in gramcheck.batches(QUICK if tier == "quick" else THOROUGH, tier, cov):
+        fails, st = gramcheck.replay(ds, "c01", vlib.SEED, {"layouts": 1 if tier == "quick" else 3})
+        stats["cases"] += st["cases"]
+        stats["ok"] += st["ok"]
+        nds += len(ds)
+        canon_failed = set(id(d) for d, vn, _, _, _ in fails if vn == "canonical")
+        for d, vn, text, sig, det in fails:
+            if vn != "canonical" and id(d) in canon_failed:
+                continue          # already reported for the canonical spelling
+            if sig == "parse-fail":
+                m = re.search(r"that matched token (.*)$", (det.get("diag") or {}).get("primary", {}).get("msg", ""))
+                sig = "parse-fail:found=%s" % (m.group(1) if m else "?")
+            if vn != "canonical":
+                sig = "layout-only:" + sig
+            rep.add(sig, labels=set(d["labs"]) | {"start:" + d["start"]},
+                    detail=dict(det, text=text, variant=vn, labels=d["labs"]),
+                    replay={"text": text, "cmd": "echo '{\"id\":0,\"text\":<text>}' | build/target/debug/vph parse"})
+        for d in ds:
+            labels |= set(d["labs"])
+        if d0 is None:
+            d0 = ds[len(ds) // 2]
+    cov["derivations"] = nds
     cov["sentences_parsed"] = stats["cases"]
     cov["traces_validated_against_impl"] = stats["cases"]
     cov["production_labels_exercised"] = len(labels)
     cov["production_labels"] = sorted(labels)
-    d0 = ds[len(ds) // 2]
     cov["samples"].append({"text": gram.spell(d0["toks"])[0], "denotes": gram.denote(d0["val"]), "labels": d0["labs"]})
     cov["exhaustive"] = True
     cov["excluded"] = ["instruction list", "VAR_TEMP", "multiple resources", "VAR_ACCESS in CONFIGURATION",
